@@ -527,10 +527,10 @@ Protect(v, m) ==
   ELSE v
 
 \* One key through parse_object({key: x}) / parse_args(["--key=" + text]):
-\*   _core._check_value_key:1413  None is not checked (lenient_check)
+\*   _core._check_value_key:1421  None is not checked (lenient_check)
 \*   _apply_actions / ActionTypeHint.__call__   first _check_type
 \*   add_sub_defaults:463-473     str values are applied once more
-\*   validate / check_values:1127-1132   every non-None value is checked again on a clone, the result is discarded
+\*   validate / check_values:1135-1140   every non-None value is checked again on a clone, the result is discarded
 AlgParse(t, x, dflt) ==
   IF x = NoneV THEN Ok(NoneV, {}, x)
   ELSE LET r1 == AlgCheckType(t, x, dflt) IN
@@ -543,7 +543,7 @@ AlgParse(t, x, dflt) ==
                  ELSE Er(r1.dev \cup r2.dev \cup r3.dev, r1.m)
 
 \* The key is NOT given and the argument has the default d.
-\*   parse_object: _core.py:504  cfg = self._apply_actions(cfg) runs the defaults through _check_type -- the same passes
+\*   parse_object: _core.py:508  cfg = self._apply_actions(cfg) runs the defaults through _check_type -- the same passes
 \*                 as for an object that is given;  a class-typed option gets its init_args from a nested parse_object.
 \*   parse_args:   the defaults are taken as they are (get_defaults); only add_sub_defaults re-applies str values and
 \*                 validate checks them.  A valid but non-canonical default (1 for float, a tuple for List) therefore
